@@ -1,15 +1,20 @@
 #!/bin/sh
-# usage: seedtest.sh <patch.diff> <Cxx> [Cyy ...]   -- apply a seeded change to /repo, run the checks, undo it
-patch="$1"; shift
-cd /repo || exit 2
-if [ -n "$(git status --porcelain --untracked-files=no)" ]; then echo "/repo not clean" >&2; exit 2; fi
-git apply "$patch" || { echo "patch does not apply" >&2; exit 2; }
+# usage: seedtest.sh <patch.diff> <Cxx> [Cyy ...]
+# Runs the checks against a seeded change WITHOUT touching /repo: the patch is applied to a throw-away worktree of /repo's HEAD
+# and the checks are pointed at it (VERIF_REPO); evidence of these runs goes to a scratch directory.  The worktree and its
+# scratch files are removed afterwards.  (Equivalent to `git -C /repo apply`, run, `git -C /repo checkout -- .`, but several
+# can run side by side and long background runs on /repo are not disturbed.)
+patch=$(realpath "$1"); shift
+wt=/var/tmp/seedrun-$$
+git -C /repo worktree add -q --detach "$wt" HEAD || exit 2
+trap 'git -C /repo worktree remove --force "$wt" >/dev/null 2>&1; rm -rf "/var/tmp/redo-verif-seed-$$" "/var/tmp/seed-evidence-$$"' EXIT
+git -C "$wt" apply "$patch" || { echo "patch does not apply" >&2; exit 2; }
 cd /verif
 for id in "$@"; do
-  ./check $id > /var/tmp/seedtest-$id.log 2>&1
+  VERIF_REPO="$wt" VERIF_SCRATCH="/var/tmp/redo-verif-seed-$$" VERIF_EVIDENCE_DIR="/var/tmp/seed-evidence-$$" VERIF_SHOW_CAND=${VERIF_SHOW_CAND:-} ./check $id > /var/tmp/seedtest-$id-$$.log 2>&1
   rc=$?
   echo "$id exit=$rc"
-  grep "^VIOLATION\|^KNOWN" /var/tmp/seedtest-$id.log | cut -c1-220
-  [ $rc -eq 2 ] && grep "INCONCLUSIVE" /var/tmp/seedtest-$id.log | head -3 | cut -c1-300
+  grep "^VIOLATION\|^KNOWN" /var/tmp/seedtest-$id-$$.log | cut -c1-220
+  grep "  role=" /var/tmp/seedtest-$id-$$.log | cut -c1-300
+  [ $rc -eq 2 ] && grep "INCONCLUSIVE" /var/tmp/seedtest-$id-$$.log | head -3 | cut -c1-300
 done
-git -C /repo checkout -- .
